@@ -283,6 +283,11 @@ class CodecScenario:
             return self.call_hook(call, "getattr", fval, args, kwargs, st)
         if d == "inspect.unwrap" and len(args) == 1:
             a = args[0]
+            if isinstance(a, R) and a.kind == "proxy":
+                # an object that answers EVERY attribute (a lazy proxy, a recording double): its __wrapped__ is another such
+                # object, and inspect.unwrap gives up with ValueError("wrapper loop when unwrapping ...")
+                st.pending = st.pending or "ValueError"
+                return U("wrapper loop")
             # a bound method forwards attribute access to its function, so unwrap() follows the function's chain
             if isinstance(a, R) and a.kind == "boundmethod" and isinstance(a.fields["func"], R) and "__wrapped__" in a.fields["func"].fields:
                 a = a.fields["func"]
@@ -300,7 +305,7 @@ class CodecScenario:
         if d == "callable" and len(args) == 1:
             a = args[0]
             if isinstance(a, R):
-                return K(a.kind in ("func", "builtinfunc", "boundmethod", "cls", "td", "callable_obj"))
+                return K(a.kind in ("func", "builtinfunc", "boundmethod", "cls", "td", "callable_obj", "proxy"))
             if isinstance(a, K):
                 return K(False)
             return None
